@@ -61,6 +61,11 @@ def json_cases(sc, tr_http, tr_direct):
                     pb = server.find_bt(tr_http["snaps"][k + 1], op["id"])
                     if pb and "some" in r and pb["exch"]["buffer"]:
                         out.append(((k, "insert-request"), gc("CJInsert", g_jwire(pb["exch"]["buffer"][-1]), g_json(raw))))
+                        if r.get("ser_text"):
+                            # … and the crate's own serialisation of that order (request bodies of orders given as JSON
+                            # are the scenario's JSON, so Serialize is read here)
+                            out.append(((k, "insert-request-serialised"),
+                                        gc("CJInsert", g_jwire(pb["exch"]["buffer"][-1]), g_json(json.loads(r["ser_text"])))))
             elif o == "delete":
                 if kind == "uist":
                     out.append(((k, "delete-request"), gc("CUDelete", gn(op["order_id"]), g_json(raw))))
